@@ -200,6 +200,9 @@ type Env struct {
 	// handler events
 	HandlerCalls   atomic.Int64
 	DecodeErrCalls atomic.Int64 // decode-error handler invocations (HandlerMode 2)
+	// HandlerHold, when set, makes the data handler block (on the receive goroutine) until the
+	// channel is closed.
+	HandlerHold atomic.Pointer[chan struct{}]
 	// InlineReply makes the data handler answer every primary with ReplyDataMessage on the calling
 	// (receive) goroutine; the records are read with Inline().
 	InlineReply atomic.Bool
@@ -369,6 +372,9 @@ func NewEnv(o Options) (*Env, error) {
 func (e *Env) addDataHandler(conn hsms.Connection) {
 	conn.AddDataMessageHandler(func(msg *hsms.DataMessage, ep hsms.SECS2Endpoint) {
 		e.HandlerCalls.Add(1)
+		if hold := e.HandlerHold.Load(); hold != nil {
+			<-*hold // an application handler that blocks the generation's receive goroutine
+		}
 		if e.InlineReply.Load() {
 			// an INLINE handler: it answers on the generation's own receive goroutine
 			rec := &InlineRec{Start: time.Now()}
